@@ -280,6 +280,13 @@ func (ex *Exec) keyVal(k *Term, kt types.Type) Val {
 	if _, isPtr := under(kt).(*types.Pointer); isPtr {
 		return RefPtr{Ref: k, Elem: under(kt).(*types.Pointer).Elem()}
 	}
+	if st, isStruct := under(kt).(*types.Struct); isStruct {
+		// the key handed out by the iteration: an unknown struct value whose identity is k
+		v := ex.freshVal(kt, "iterkeyval")
+		_ = st
+		ex.assume(ts.Eq(ex.keyTerm(v, kt), k))
+		return v
+	}
 	unsup("iteration over map with key type %s", kt)
 	return nil
 }
